@@ -259,6 +259,25 @@ Section TrackLemmas.
     - inversion H; subst. cbn. auto.
   Qed.
 
+  (* the merge-history clause of C11, spelled out *)
+  Lemma merge_history_lemma : forall w self other classes mh w' r t' n,
+      merge w self other classes mh = (w', r, t', n) ->
+      match r with
+      | Err _ => hist t' = hist self
+      | Ok _ =>
+          (mh = true -> requested_present self other classes = true -> hist t' = hist self ++ hist other) /\
+          (mh = false -> hist t' = hist self) /\
+          (requested_present self other classes = false -> hist t' = hist self) /\
+          (hist t' = hist self \/ hist t' = hist self ++ hist other)
+      end.
+  Proof.
+    intros w self other classes mh w' r t' n H. apply merge_spec_lemma in H. destruct r.
+    - destruct H as (_ & _ & Hh). rewrite Hh.
+      destruct mh; destruct (requested_present self other classes); cbn [andb]; repeat split; auto; discriminate.
+    - destruct H as (H & _). subst. reflexivity.
+  Qed.
+
+
   Lemma merge_err_kind : forall w self other classes mh w' e t' n,
       merge w self other classes mh = (w', Err e, t', n) -> e = EAttrMerge \/ e = EOptimize.
   Proof.
